@@ -37,15 +37,19 @@ type c10Case struct {
 	Opt []bool `json:"opt,omitempty"`
 	// ScopeOnly[k] (with Opt[k]): key k's templates are options templates whose v fields are ALL scope fields
 	// (scope field count == field count: valid, and the shape of every "per-interface name" style option)
-	ScopeOnly []bool      `json:"scope_only,omitempty"`
-	AnnYield  [][]int     `json:"ann_yield"`
-	Readers   []c10Reader `json:"readers"`
-	Dumpers   []int       `json:"dumpers"` // per dumper: number of dumps
-	Rounds    int         `json:"rounds"`  // the whole plan is executed this many times on fresh caches
+	ScopeOnly []bool `json:"scope_only,omitempty"`
+	// EmptyAlt[k]: between two versions key k's announcer announces a template of the same id whose fields all have
+	// length zero (records of it cannot be delimited): a lookup or decode in that interval may find it — then the data
+	// yields nothing and is reported — but every decode terminates, and what it yields is a complete version or nothing
+	EmptyAlt []bool      `json:"empty_alt,omitempty"`
+	AnnYield [][]int     `json:"ann_yield"`
+	Readers  []c10Reader `json:"readers"`
+	Dumpers  []int       `json:"dumpers"` // per dumper: number of dumps
+	Rounds   int         `json:"rounds"`  // the whole plan is executed this many times on fresh caches
 }
 
 const c10Rule = "case = concurrency plan: protocol (ipfix | nf9), 2..6 (exporter,id) keys (disjoint, same-exporter, same-shard and full-hash-colliding pairs), one announcer goroutine per key publishing template versions 1..V " +
-	"(version v = v fields of element e_v; a third of the keys use options templates with 5 scope fields of e_v in front, or — a third of those — options templates whose v fields are all scope fields), 1..6 reader goroutines (decode data for a key, peer Get, decode an unannounced key), 0..3 dumper goroutines calling Dump, drawn Gosched/sleep points; executed 1..3 rounds under the Go race detector; " +
+	"(version v = v fields of element e_v; a third of the keys use options templates with 5 scope fields of e_v in front, or — a third of those — options templates whose v fields are all scope fields; a fifth of the plain keys announce a template of zero-length fields between two versions: data may then yield nothing, reported, but every decode terminates), 1..6 reader goroutines (decode data for a key, peer Get, decode an unannounced key), 0..3 dumper goroutines calling Dump, drawn Gosched/sleep points; executed 1..3 rounds under the Go race detector; " +
 	"oracle = (1) no race report / fatal runtime error; (2) every lookup is 'unknown' (only if nothing had been announced for the key when it began) or one COMPLETE version v of exactly that key with " +
 	"done(k) at start <= v <= started(k) at end; (3) every dump file loads and holds only complete versions, each >= done(k) at dump start; " +
 	"non-trivial = the plan has >= 1 dumper and >= 1 reader on a key whose announcer publishes >= 2 versions (lookups and dumps overlap announcements); distinct by hash"
@@ -79,6 +83,8 @@ func versionTemplate(id uint16, v int, opt, scopeOnly bool) wire.Template {
 }
 
 func (c *c10Case) isOpt(k int) bool { return k < len(c.Opt) && c.Opt[k] }
+
+func (c *c10Case) emptyAlt(k int) bool { return k < len(c.EmptyAlt) && c.EmptyAlt[k] }
 
 func (c *c10Case) scopeOnly(k int) bool { return c.isOpt(k) && k < len(c.ScopeOnly) && c.ScopeOnly[k] }
 
@@ -133,6 +139,7 @@ func genC10(t *rapid.T) c10Case {
 		opt := rapid.IntRange(0, 2).Draw(t, "optkey") == 0
 		c.Opt = append(c.Opt, opt)
 		c.ScopeOnly = append(c.ScopeOnly, opt && rapid.IntRange(0, 2).Draw(t, "scopeonly") == 0)
+		c.EmptyAlt = append(c.EmptyAlt, !opt && rapid.IntRange(0, 4).Draw(t, "emptyalt") == 0)
 		nv := rapid.IntRange(1, c10MaxVersions).Draw(t, "nversions")
 		if opt && nv > 7 {
 			nv = 7 // a record of version v has (5+v)*4 octets and must fit the 48-octet probe
@@ -298,6 +305,17 @@ func c10Round(c *c10Case, dir string, round int) error {
 					return
 				}
 				atomic.StoreInt32(&done[k], int32(ver))
+				if c.emptyAlt(k) && ver < c.Versions[k] {
+					et := wire.Template{ID: sl.ID}
+					for i := 0; i < ver; i++ {
+						et.Fields = append(et.Fields, wire.Field{ID: versionElems[ver], Len: 0, Type: wire.TUint32})
+					}
+					em := wire.Msg{Proto: c.Proto, Seq: uint32(1000 + ver), Sets: []wire.Set{{Kind: "tpl", Tpls: []wire.Template{et}}}}
+					if _, perr := cache.decodeFlow(wire.ExactIP(sl.Addr), em.Bytes()); perr != nil {
+						fail("announcing a template of zero-length fields for key %d: %v", k, perr)
+						return
+					}
+				}
 				yield(c.AnnYield[k][ver-1])
 			}
 		})
@@ -346,6 +364,9 @@ func c10Round(c *c10Case, dir string, round int) error {
 							checkRange("decode", k, lo, 0, true)
 							continue
 						}
+						if c.emptyAlt(k) && len(res.Recs) == 0 {
+							continue // the template of zero-length fields was in force: nothing decoded, reported
+						}
 						fail("reader: decoding data for key %d failed: %v", k, res.Err)
 						return
 					}
@@ -382,6 +403,15 @@ func c10Round(c *c10Case, dir string, round int) error {
 						continue
 					}
 					all := append(append([]ipfix.TemplateFieldSpecifier{}, resp.ScopeFieldSpecifiers...), resp.FieldSpecifiers...)
+					if c.emptyAlt(k) && len(all) > 0 {
+						zero := true
+						for _, f := range all {
+							zero = zero && f.Length == 0
+						}
+						if zero {
+							continue
+						}
+					}
 					wantScope := c.extra(k)
 					if c.scopeOnly(k) {
 						wantScope = len(all)
@@ -459,7 +489,39 @@ func c10Round(c *c10Case, dir string, round int) error {
 		})
 	}
 	close(start)
-	wg.Wait()
+	// a decode that does not terminate (or grows without bound) would keep the plan from ever finishing: the plan is
+	// watched by the processor time and the heap it takes (a busy machine only makes the wall clock run)
+	planDone := make(chan struct{})
+	go func() { wg.Wait(); close(planDone) }()
+	var ms0 runtime.MemStats
+	runtime.ReadMemStats(&ms0)
+	cpu0, t0 := processCPU(), time.Now()
+WATCH:
+	for {
+		select {
+		case <-planDone:
+			break WATCH
+		case <-time.After(100 * time.Millisecond):
+		}
+		var ms runtime.MemStats
+		runtime.ReadMemStats(&ms)
+		used := processCPU() - cpu0
+		if grown := ms.HeapAlloc > ms0.HeapAlloc && ms.HeapAlloc-ms0.HeapAlloc > 2<<30; grown || used > 120*time.Second || time.Since(t0) > 20*time.Minute {
+			// the goroutines cannot be stopped: the process ends here, the case in flight is in the side file
+			msg := fmt.Sprintf("a concurrency plan has not finished after %.0fs of processor time (%.0fs of wall clock), heap grown by %d MiB: a decode, lookup or dump does not terminate or its memory is not bounded",
+				used.Seconds(), time.Since(t0).Seconds(), (ms.HeapAlloc-ms0.HeapAlloc)>>20)
+			rp := ""
+			if *flagReplay != "" {
+				dir := filepath.Join(*flagReplay, "C10")
+				os.MkdirAll(dir, 0o755)
+				rp = filepath.Join(dir, fmt.Sprintf("fail-%s.json", *flagShard))
+				b, _ := json.MarshalIndent(replayFile{Property: "C10", Kind: "watchdog", Message: msg, Case: mustJSON(c)}, "", " ")
+				os.WriteFile(rp, b, 0o644)
+			}
+			fmt.Printf("WATCHDOG property=C10 %s (replay %s)\n", msg, rp)
+			os.Exit(3)
+		}
+	}
 	if firstErr != nil {
 		return firstErr
 	}
@@ -484,6 +546,9 @@ func c10Round(c *c10Case, dir string, round int) error {
 					return fmt.Errorf("dump taken after version %d of key %d had been announced does not contain the key", d.lo[k], k)
 				}
 				continue
+			}
+			if c.emptyAlt(k) && res.Err != nil && len(res.Recs) == 0 {
+				continue // the dump caught the template of zero-length fields
 			}
 			if res.Err != nil || len(res.Recs) == 0 {
 				return fmt.Errorf("dump %s: key %d does not decode: %v", filepath.Base(d.file), k, res.Err)
